@@ -28,6 +28,7 @@ CONSTANTS
   FailSaves = FALSE
   Focus = TRUE
   Record = TRUE
+  Scrapes = FALSE
   Marking = FALSE
   WindAt = 30
   Gaps = {}
